@@ -425,3 +425,69 @@ func watcherGoroutines() int {
 	n := runtime.Stack(buf, true)
 	return strings.Count(string(buf[:n]), "timeout.(*callControl).watcher(")
 }
+
+// ---------------------------------------------------------------------------------------------
+// exit race: a Call that arrives at the very moment the last idle worker leaves must still be served
+
+// ExitRaceCase is the configuration of the hammer.
+type ExitRaceCase struct {
+	IdleUs   int `json:"idle_us"`
+	Attempts int `json:"attempts"`
+	SpanUs   int `json:"span_us"` // the arrival offset sweeps +-span around the measured exit moment
+}
+
+// RunExitRace repeats: schedule a prompt callback; when it has run, wait until about the moment the worker gives
+// up for idleness (calibrated first), then schedule the next one. Every callback must start within the bound.
+func RunExitRace(c ExitRaceCase) (hits int, v *vstat.Violation) {
+	v = vstat.Guard("timers:panic", func() *vstat.Violation {
+		idle := time.Duration(c.IdleUs) * time.Microsecond
+		resetPool(10, idle)
+		one := func() (time.Time, *vstat.Violation) { // returns when the callback finished
+			var done atomic.Int64
+			t := time.Now()
+			timeout.Call(func() { done.Store(time.Now().UnixNano()) }, 0)
+			for done.Load() == 0 {
+				if time.Since(t) > latenessBound {
+					return t, vstat.V("timers:never-started", "a Call issued around the moment the last idle worker left was not started within %v (pending=%d workers=%d goroutines=%d)", latenessBound, pending(), poolWorkers(), watcherGoroutines())
+				}
+				if time.Since(t) > 200*time.Microsecond {
+					time.Sleep(20 * time.Microsecond)
+				}
+			}
+			return time.Unix(0, done.Load()), nil
+		}
+		// calibration: how long after a callback does the pool reach zero workers?
+		var sum time.Duration
+		const cal = 30
+		for i := 0; i < cal; i++ {
+			end, v := one()
+			if v != nil {
+				return v
+			}
+			for poolWorkers() > 0 {
+				if time.Since(end) > latenessBound+5*time.Second {
+					return vstat.V("timers:no-wind-down", "nothing is pending but the pool still has %d workers %v after the last callback (idle timeout %v)", poolWorkers(), time.Since(end), idle)
+				}
+			}
+			sum += time.Since(end)
+		}
+		center := sum / cal
+		span := time.Duration(c.SpanUs) * time.Microsecond
+		for i := 0; i < c.Attempts; i++ {
+			end, v := one()
+			if v != nil {
+				return v
+			}
+			// sweep the arrival moment across [center-span, center+span/2]
+			off := center - span + time.Duration(int64(3*span/2)*int64(i%97)/97)
+			for time.Since(end) < off {
+			}
+			if poolWorkers() == 0 { // informational only: how often we arrived after the exit
+				hits++
+			}
+		}
+		_, v := one()
+		return v
+	})
+	return
+}
